@@ -29,10 +29,12 @@ template<unsigned nbits, typename bt>
 struct IN {
 	using T = integer<nbits, bt>;
 	static constexpr bool hexfmt_ok = sizeof(bt) < 8;   // nibble() shifts an int by up to 60 for uint64_t blocks (undefined)
-	// operator<< divides in integer<nbits+1,bt>; with more than one uint64_t block that arithmetic drops carries
+	// operator<< divides in integer<max(nbits+1, bitsInBlock),bt>; with more than one uint64_t block that arithmetic drops carries
 	// (integer::operator+= `if constexpr (bitsInBlock == 64) carry = 0`) — a C08/C12 defect, not a text path: not streamed
 	static constexpr bool ostream_ok = !(sizeof(bt) == 8 && nbits + 1 > 64);
 	static constexpr bool parsedec_ok = !(sizeof(bt) == 8 && nbits > 64);   // the decimal parser multiplies and adds in integer<nbits,bt>
+	// the receiving object of every parse holds a value with EVERY bit set beforehand: bytes that parse fails to clear or to write show up
+	static void dirty(T& v) { v.clear(); for (unsigned i = 0; i < nbits; ++i) v.setbit(i, true); }
 	static std::string head(const char* op) { char buf[64]; std::snprintf(buf, sizeof buf, "integer %u %s %s", nbits, uvt::btname(sizeof(bt)), op); return buf; }
 	static void encoding(const Bits& x) {
 		T a; uvt::write_bits(a, x);
@@ -44,21 +46,21 @@ struct IN {
 		}
 		bool ok = false;
 		if constexpr (parsedec_ok) {
-			T b; b.setbits(0x5);
+			T b; dirty(b);
 			ok = parse(d, b);
 			uvt::emit(head("rtdec").c_str(), x.hex(), ok ? uvt::read_bits(b, nbits).hex() : std::string("fail"));
 		}
 		if constexpr (hexfmt_ok) {
 			std::string h = to_hex(a);
 			uvt::emit(head("hexfmt").c_str(), x.hex(), h);
-			T c; c.setbits(0x5);
+			T c; dirty(c);
 			ok = parse(h, c);
 			uvt::emit(head("roundtrip").c_str(), x.hex(), ok ? uvt::read_bits(c, nbits).hex() : std::string("fail"));
 		}
 	}
 	static void text(const char* op, const std::string& s) {
 		if (!parsedec_ok && std::strcmp(op, "parsedec") == 0) return;
-		T b; b.setbits(0x5);
+		T b; dirty(b);
 		bool ok = parse(s, b);
 		uvt::emit(head(op).c_str(), s, ok ? uvt::read_bits(b, nbits).hex() : std::string("fail"));
 	}
@@ -93,8 +95,11 @@ struct IN {
 	static std::string gen_hex(uv::Rng& g) {
 		unsigned cap = (nbits + 3) / 4;
 		unsigned len;
-		switch (g.below(7)) { case 0: len = 1 + (unsigned)g.below(cap); break; case 1: len = cap; break; case 2: len = cap + 1; break;
-			case 3: len = cap > 1 ? cap - 1 : 1; break; case 4: len = 2 * (nbits / 8) ? 2 * (nbits / 8) : 1; break; case 5: len = 2 * (nbits / 8) + 1; break; default: len = 1 + (unsigned)g.below(cap + 4); break; }
+		switch (g.below(10)) { case 0: len = 1 + (unsigned)g.below(cap); break; case 1: len = cap; break; case 2: len = cap + 1; break;
+			case 3: len = cap > 1 ? cap - 1 : 1; break; case 4: len = 2 * (nbits / 8) ? 2 * (nbits / 8) : 1; break; case 5: len = 2 * (nbits / 8) + 1; break;
+			// the repaired scanner: exactly / one short of / one past 2*ceil(nbits/8) nibbles (sign in front of a full-width string, clipped top byte)
+			case 6: len = 2 * ((nbits + 7) / 8); break; case 7: len = 2 * ((nbits + 7) / 8) - 1; break; case 8: len = 2 * ((nbits + 7) / 8) + 1 + (unsigned)g.below(3); break;
+			default: len = 1 + (unsigned)g.below(cap + 4); break; }
 		std::string body = digits(g, len, g.coin() ? "0123456789abcdef" : "0123456789ABCDEFabcdef");
 		if (g.below(6) == 0) body.insert(g.below(body.size() + 1), "'");
 		if (g.below(12) == 0) body.insert(g.below(body.size() + 1), "'");
@@ -103,7 +108,8 @@ struct IN {
 	static void strings(uv::Rng& g, unsigned count) {
 		for (unsigned i = 0; i < count; ++i) { text("parsedec", gen_decimal(g)); text("parsehex", gen_hex(g)); }
 		const char* misc[] = { "0", "00", "-0", "+0", "1", "-1", "+1", "9", "10", "0x0", "0x1", "-0x1", "0xf", "0xF", "0x10", "0x100", "0x1000", "0xff", "-0xff",
-			"0xfff", "0xffff", "-0xffff", "0x0001", "0x'1", "0x1'", "x1", "0x", "1x", "0x1g", "12a", "-", "+", "1-", "0b101", "017", "-017", "08", "0008" };
+			"0xfff", "0xffff", "-0xffff", "0x0001", "0x'1", "0x1'", "x1", "0x", "1x", "0x1g", "12a", "-", "+", "1-", "0b101", "017", "-017", "08", "0008",
+			"-0x01", "+0x01", "-0x001", "-0x0001", "-0x00000001", "-0x0000000000000001", "-0x100", "-0x1000", "0xfff0", "-0xfff0", "0x7f", "0x80", "-0x80", "0x1ff", "-0x1ff", "0x3f", "0x40" };
 		for (const char* m : misc) text(std::strchr(m, 'x') || std::strchr(m, 'X') ? "parsehex" : "parsedec", m);
 	}
 	static void exhaustive() {
@@ -186,6 +192,13 @@ static void edec(uint64_t count) {
 	}
 	const char* bad[] = { "", "x", "1x", "-", "+", "1-", "1.5", "0x10" };
 	for (const char* b : bad) if (*b) { edecimal d; bool ok = d.parse(b); uvt::emit("edec parse", b, ok ? str(d) : std::string("fail")); }
+	// the repaired parse: padding, negative zero, and a receiving object that held a negative value
+	const char* pad[] = { "0", "-0", "+0", "00", "-00", "-000", "007", "-007", "+007", "0070", "-0070", "5", "-5", "+5", "10", "-10" };
+	for (const char* b : pad) {
+		{ edecimal d; bool ok = d.parse(b); uvt::emit("edec parse", b, ok ? str(d) : std::string("fail")); }
+		for (const char* first : { "-3", "3", "-0" }) { edecimal d; d.parse(first); bool ok = d.parse(b);
+			std::printf("text edec reparse %s %s => %s\n", first, b, ok ? str(d).c_str() : "fail"); }
+	}
 }
 
 #define IN_SMALL(X) \
@@ -193,7 +206,8 @@ static void edec(uint64_t count) {
 	X(8,uint16_t) X(12,uint16_t) X(13,uint16_t) X(9,uint32_t) X(12,uint32_t)
 #define IN_LARGE(X) \
 	X(15,uint16_t) X(16,uint8_t) X(16,uint16_t) X(16,uint32_t) X(24,uint8_t) X(31,uint32_t) X(32,uint8_t) X(32,uint16_t) X(32,uint32_t) X(32,uint64_t) \
-	X(33,uint8_t) X(63,uint64_t) X(64,uint8_t) X(64,uint32_t) X(64,uint64_t) X(100,uint8_t) X(100,uint32_t) X(128,uint16_t) X(128,uint32_t)
+	X(33,uint8_t) X(63,uint64_t) X(64,uint8_t) X(64,uint32_t) X(64,uint64_t) X(100,uint8_t) X(100,uint32_t) X(128,uint16_t) X(128,uint32_t) \
+	X(14,uint16_t) X(29,uint32_t) X(30,uint32_t) X(59,uint64_t) X(60,uint64_t)   /* either side of 10^k < 2^nbits (operator<< working type) */
 
 int main(int argc, char** argv) {
 	if (argc < 3) { std::fprintf(stderr, "usage: h_text_int exh integer [n bytes] | rnd integer|eint|edec <count> [n bytes]\n"); return 2; }
